@@ -152,7 +152,10 @@ pub fn explore<O: Send>(
                         let mut cost = lvl;
                         // cost of the prefix part is `lvl` by construction; walk the tail
                         let mut kids: Vec<(usize, Vec<usize>)> = vec![];
-                        for i in plen..r.points.len() {
+                        // an execution that ran into the step horizon (a loop that never blocks) is a verdict for
+                        // the check already; expanding its tens of thousands of decision points would only exhaust memory
+                        let expand_to = if r.step_cap_hit { plen } else { r.points.len() };
+                        for i in plen..expand_to {
                             let p = &r.points[i];
                             let step = if dev || p.running_enabled { 1 } else { 0 };
                             if cost + step <= limit {
